@@ -13,8 +13,9 @@
                                     dtype=result_field.data.dtype);  result_data[sm] = values[...]  per (source, sink) pair
 
    A payload value is represented by an integer: the value itself for integer dtypes, 0/1 for bool, the IEEE bit
-   pattern (as an unsigned integer) for float32/float64.  `cast a b v` is the store of a value of dtype a into an
-   array of dtype b (numba / numpy "unsafe" casting: integers wrap); conversions from or to floating point are NOT
+   pattern (as an unsigned integer) for float32/float64, the n bytes of a fixed-width string 'Sn' (NUL-padded, read as a
+   big-endian number; b'' = 0 is the empty value the streamed form writes for unmatched rows).  `cast a b v` is the store of a value of dtype a into an
+   array of dtype b (numba / numpy "unsafe" casting: integers wrap); conversions from or to floating point or fixed-width strings are NOT
    modelled (None) — the harness never generates them.  Because the only operation the kernels perform on a payload
    value is that store, staging a column through dtype b is the element-wise cast of the column; the typed call is
    the untyped call of SessionMerge.v on the staged columns, tagged with the dtypes the caller observes.
@@ -26,7 +27,7 @@ From EV Require Import Res Arr Join MapStream SessionMerge.
 Import ListNotations.
 Open Scope Z_scope.
 
-Inductive dtype := DBool | DInt (bits:Z) | DUInt (bits:Z) | DFloat (bits:Z).
+Inductive dtype := DBool | DInt (bits:Z) | DUInt (bits:Z) | DFloat (bits:Z) | DBytes (n:Z).
 
 Definition dtype_eqb (a b:dtype) : bool :=
   match a, b with
@@ -34,6 +35,7 @@ Definition dtype_eqb (a b:dtype) : bool :=
   | DInt x, DInt y => x =? y
   | DUInt x, DUInt y => x =? y
   | DFloat x, DFloat y => x =? y
+  | DBytes x, DBytes y => x =? y
   | _, _ => false
   end.
 
